@@ -325,6 +325,45 @@ def interp_work(payload):
             if dev > (2 ** d * ncell + 2) / Ns:
                 k = np.unravel_index(np.argmax(np.abs(counts / Ns - mass)), counts.shape)
                 res.violation("nd:cell-mass|%s|%s" % (cls.__name__, name), "%s on grid %s: cell %r receives %.5f of the sample, integral of the interpolant over it is %.5f of the total" % (cls.__name__, name, tuple(int(i) for i in k), counts[k] / Ns, mass[k]), case)
+    # within-cell distribution of the multilinear sampler in >= 2 dimensions: first moments of the local coordinates per
+    # cell under low-discrepancy inner numbers (the interpolant's moment: sum_c z_c m_j(c) / sum_c z_c, m = 2/3 | 1/3)
+    nd2 = dict((k, v) for k, v in nd.items() if len(v[0]) >= 2)
+    nd2["2d_x_only"] = ([np.array([0.0, 1.0]), np.array([0.0, 1.0])], np.array([[0.0, 0.0], [1.0, 1.0]]))
+    nd2["2d_y_only"] = ([np.array([0.0, 1.0]), np.array([0.0, 1.0])], np.array([[0.0, 1.0], [0.0, 1.0]]))
+    nd2["3d"] = ([np.array([0.0, 1.0, 3.0]), np.array([0.0, 2.0]), np.array([-1.0, 0.0, 0.5])], (np.arange(18, dtype=float).reshape(3, 2, 3) * 7 % 11) + 0.25)
+    for name, (xs, z) in nd2.items():
+        d = len(xs)
+        ncell = int(np.prod([len(a) - 1 for a in xs]))
+        Ns = 4000 * ncell * (2 ** d)
+        kk = np.arange(Ns)
+        alphas = [0.6180339887498949, 0.7548776662466927, 0.5698402909980532][:d]
+        inner = np.stack([(0.5 + kk * a) % 1.0 for a in alphas], axis=1)
+        ulat = (kk + 0.5) / Ns
+        g = InterpND(xs, z)
+        with owned_tf_random(Scripted([inner, ulat])):
+            pts = g.generate(Ns)
+        case = {"part": "interp", "nd": name, "cls": "InterpND", "seed": seed, "moments": True}
+        res.case(nontrivial_key=("nd-moment", name), n=Ns)
+        idx = [np.clip(np.digitize(pts[:, j], xs[j][1:-1]), 0, len(xs[j]) - 2) for j in range(d)]
+        flat = np.ravel_multi_index(tuple(idx), [len(a) - 1 for a in xs])
+        worst = 0.0
+        for cell in range(ncell):
+            sel = flat == cell
+            ci = np.unravel_index(cell, [len(a) - 1 for a in xs])
+            zc = np.array([z[tuple(ci[j] + b[j] for j in range(d))] for b in itertools.product((0, 1), repeat=d)])
+            if zc.sum() <= 0 or sel.sum() < 200:
+                continue
+            for j in range(d):
+                lo_, hi_ = xs[j][ci[j]], xs[j][ci[j] + 1]
+                tloc = (pts[sel, j] - lo_) / (hi_ - lo_)
+                mj = np.array([2 / 3 if b[j] else 1 / 3 for b in itertools.product((0, 1), repeat=d)])
+                want = float((zc * mj).sum() / zc.sum())
+                dev = abs(float(tloc.mean()) - want)
+                worst = max(worst, dev)
+                if dev > 0.01:
+                    res.violation("nd:cell-moment|InterpND", "InterpND on grid %s: mean local coordinate %d in cell %r is %.4f, the interpolant gives %.4f" % (name, j, tuple(int(i) for i in ci), float(tloc.mean()), want), case)
+                    break
+        res.stat_max("nd_moment_abs_dev_on_passing_cases", worst if worst <= 0.01 else 0.0)
     # within-cell transform of InterpND inverts the corner kernel CDF (single cell, one corner switched on)
     for corner in (0, 1):
         zz = np.array([0.0, 0.0])
